@@ -789,6 +789,10 @@ func (e *Exec) sxCall(env *SpecEnv, n *ast.CallExpr) SVal {
 	case "sameSlice":
 		a, b := e.sx(env, n.Args[0]), e.sx(env, n.Args[1])
 		return SVal{T: eq(a.T, b.T), Typ: boolT}
+	case "offsetIn":
+		// offsetIn(p, buf): where p starts relative to buf (meaningful when both share a backing array)
+		a, b := e.sx(env, n.Args[0]), e.sx(env, n.Args[1])
+		return SVal{T: fmt.Sprintf("(- (s_off %s) (s_off %s))", a.T, b.T), Typ: intT}
 	case "aliases":
 		// aliases(p, buf, off): p starts at buf[off] in the same backing array
 		a, b := e.sx(env, n.Args[0]), e.sx(env, n.Args[1])
@@ -980,13 +984,20 @@ func (e *Exec) sxCall(env *SpecEnv, n *ast.CallExpr) SVal {
 			return SVal{T: sel(sel(e.hget(env.heap(), vlen), b), e.mat(env, e.sx(env, n.Args[1]))), Typ: intT}
 		}
 		return SVal{T: sel(sel(sel(e.hget(env.heap(), val), b), e.mat(env, e.sx(env, n.Args[1]))), e.mat(env, e.sx(env, n.Args[2]))), Typ: types.Typ[types.Byte]}
-	case "lastret":
+	case "lastret", "lastretOf":
 		// lastret("F"): the (first, integer-like) result of the most recent call of the contracted function F
 		lit, ok := n.Args[0].(*ast.BasicLit)
 		if !ok {
 			return e.specErr(env, n, "lastret needs a string literal")
 		}
-		return SVal{T: e.hget(env.heap(), e.heapMap("GS_ret."+sanitize(strings.Trim(lit.Value, "\"")), "Int")), Typ: intT}
+		var rt types.Type = intT
+		if name == "lastretOf" {
+			// lastretOf[T]("F"): the same for a first result of type T
+			if tv, ok := env.pkg.Info.Types[n]; ok && tv.Type != nil {
+				rt = tv.Type
+			}
+		}
+		return SVal{T: e.hget(env.heap(), e.heapMap("GS_ret."+sanitize(strings.Trim(lit.Value, "\"")), e.sc.sortOf(rt))), Typ: rt}
 	case "calls":
 		// calls("F"): how often the contracted function F has been called on this path so far
 		lit, ok := n.Args[0].(*ast.BasicLit)
